@@ -103,7 +103,7 @@ CHECKS = {
              "contexts passed to to()/ito(), decorator, nested blocks, alias, Context object). The result must equal the exact value of some shortest chain found "
              "by the oracle's BFS with the most recently enabled rule per edge, unreachable targets must raise DimensionalityError, same-dimension conversions are "
              "unchanged, no context may stay active. Redefinitions must apply to the unit and its dependants exactly while active (also nested and with keywords).",
-        note="Parameter inheritance with several enclosing contexts that disagree is under-specified by the statement: skipped and counted. Later additions: derived dimension names in rules; contexts built with from_lines without a to-base function and with Context() + add_transformation.",
+        note="Parameter inheritance with several enclosing contexts that disagree is under-specified by the statement: skipped and counted. Later additions: derived dimension names in rules; contexts built with from_lines without a to-base function and with Context() + add_transformation; nested contexts that both declare parameters (each rule uses its own context's value); the bundled sp/boltzmann/energy contexts against c, h, k written in the check.",
         design="5/C11"),
     "C12": dict(
         technique="model-based (stateful) testing: bounded-exhaustive breadth-first enumeration of operation sequences over a 21-letter alphabet on a fresh tiny registry, plus Hypothesis random sequences, each interpreted next to a reference stack model with a probe battery after every step; fault injection through four kinds of invalid activation",
@@ -123,7 +123,7 @@ CHECKS = {
              "None, group edits, building and using a second registry). After each state change a twin is built from the definition text plus the logged "
              "definitions and settings; subject and twin must agree on every answer, and a brand-new registry replays the final state. A second tier does the "
              "same on the bundled registry (contexts and systems), a third checks that nothing done to a second registry changes the first.",
-        note="Three known findings are excluded by construction/narrow class: units from define() missing in compatible-unit listings, definitions made inside a redefining context, double prefixes (the base-units cache across context stacks is repaired in /repo, 1d885d8). Deep copy is used to hand every question an untouched twin. Later additions: motifs (enter/leave redefining context, ask-define-ask, failing activation then retry, default_system switches, API context with keyword parameter, to_compact around a late prefix).",
+        note="Three known findings are excluded by construction/narrow class: units from define() missing in compatible-unit listings, definitions made inside a redefining context, double prefixes (the base-units cache across context stacks is repaired in /repo, 1d885d8). Deep copy is used to hand every question an untouched twin. Later additions: motifs (enter/leave redefining context, ask-define-ask, failing activation then retry, default_system switches, API context with keyword parameter, to_compact around a late prefix, get_name/get_symbol queries, defined names that also read as prefix + unit).",
         design="5/C13"),
     "C14": dict(
         technique="complete enumeration of every unit x every declared system against allowed-unit sets and exact factors from an independent definition reader; Hypothesis compound quantities, generated systems (both rule forms, power-of-root units) and model-based group/system edit histories checked against an own closure model",
@@ -143,7 +143,7 @@ CHECKS = {
              "functional one. to_reduced_units may keep no two units with proportional dimension; to_compact may change exactly one decimal prefix, must bring "
              "a single first-power unit into [1,1000) when the prefix exists (also for uncertain magnitudes on prefixed units) and return dimensionless/0/NaN/inf "
              "unchanged. Products and quotients in auto_reduce_dimensions / autoconvert_to_preferred registries are checked the same way.",
-        note="Two known findings: to_compact AssertionError for names with two readings (rads, dtex); to_reduced_units with non-terminating merged exponents in float/Decimal registries. to_preferred is not run in the Decimal registry (the MIP solver rejects Decimal). Later additions: pairs of dimensionless units count as mergeable; float-range domain restriction.",
+        note="Two known findings: to_compact AssertionError for names with two readings (rads, dtex); to_reduced_units with non-terminating merged exponents in float/Decimal registries. to_preferred is not run in the Decimal registry (the MIP solver rejects Decimal). Later additions: pairs of dimensionless units count as mergeable; float-range domain restriction; the to_compact factor must be a power of 1000; defined names that read as prefix + unit compact like the spelled-out prefix.",
         design="5/C15"),
     "C16": dict(
         technique="Hypothesis over a recipe table covering the handled NumPy functions/ufuncs/methods (names read at run time): metamorphic relation (same physical arrays in two unit assignments) + differential against NumPy on root magnitudes with a semantic-class dimension oracle; error-clause enumeration; offset-unit cases compared with the operator forms",
@@ -153,7 +153,7 @@ CHECKS = {
              "functions are compared in their own unit only; order/equality-sensitive ones use bit/byte/KiB so that re-expression is exact. Every same-dimension "
              "slot is also filled with another dimension (must raise DimensionalityError); offset-unit arrays are run through 16 operations in both registry "
              "modes and operand orders and compared with the operator form; inputs must be unchanged after non in-place calls; names without a recipe are listed in evidence.",
-        note="23 known-finding classes with two root causes: (1) mod/remainder/fmod/floor_divide do not convert their operands (pinned by the existing test-suite), (2) the ufunc implementations bypass the offset-unit rules. Functions without a recipe are reported, not claimed. Later additions: optional unit arguments given late (clip/nan_to_num/max/min/sum initial), reductions with axis+where, quantity exponents; recipes referenced by name.",
+        note="23 known-finding classes with two root causes: (1) mod/remainder/fmod/floor_divide do not convert their operands (pinned by the existing test-suite), (2) the ufunc implementations bypass the offset-unit rules. Functions without a recipe are reported, not claimed. Later additions: optional unit arguments given late (clip/nan_to_num/max/min/sum initial), reductions with axis+where, quantity exponents; recipes referenced by name; histories of ndarray-method calls and in-place state changes compared with fresh quantities (sub-check methods); values of the pool units written in the check (not read from the definition files), more angle units.",
         design="5/C16"),
     "C17": dict(
         technique="Hypothesis-generated signatures, unit specifications, call shapes and arguments for ureg.wraps / ureg.check, checked against an independent re-implementation of the documented contract with exact factors from an independent definition reader; enumeration of decoration-time errors",
@@ -163,7 +163,7 @@ CHECKS = {
              "function must see exactly the expected Fractions (None slots: the identical object), the return value must carry the declared or derived units, "
              "errors must be DimensionalityError / ValueError as documented. ureg.check is exercised the same way (dimension strings, units, containers, None). "
              "Count mismatches and wrong specification types must be rejected at decoration time (enumerated).",
-        note="Keyword-only/variadic parameters are outside the documented contract. An undefined reference in a wraps specification is only detected at call time (observation; the statement promises decoration-time rejection for count mismatches only). Later additions: quotient and negative-power references in argument and return specs.",
+        note="Keyword-only/variadic parameters are outside the documented contract. An undefined reference in a wraps specification is only detected at call time (observation; the statement promises decoration-time rejection for count mismatches only). Later additions: quotient and negative-power references in argument and return specs; one decorator object applied to two functions; every derived dimension name and SI special-name unit against an independent table of SI base exponents (oracle/dimtable.py).",
         design="5/C17"),
     "C18": dict(
         technique="Hypothesis round-trip testing (pickle protocols 0-5, copy, deepcopy, to_tuple/from_tuple) of quantities, units, measurements, unit containers, parser helpers and every pint exception class, with application-registry swaps between unpickles; enumeration-by-generation of cross-registry operator pairs; op-sequence testing of a deep-copied registry pair; differential of the lazy default registry against an explicit one in fresh interpreters",
@@ -173,7 +173,7 @@ CHECKS = {
              "must keep type, public fields and message. Every binary operator and ordering between Quantity/Unit objects of two registries (fresh, deep-copied, "
              "application) must raise ValueError. Edits on either side of a deep-copied pair (definitions, contexts, groups, systems, default system/format) must "
              "never change the other side's battery, and objects reached through the copy must belong to it. The lazily built default registry must answer like an explicit one.",
-        note="Round-trip equality is judged on content, not with == (unpickled objects belong to the application registry by design). Unit ** Quantity and in-place operators on Units are not operations and are skipped. Later additions: Measurements in the ownership list of deep copies, both ways of replacing the application registry.",
+        note="Round-trip equality is judged on content, not with == (unpickled objects belong to the application registry by design). Unit ** Quantity and in-place operators on Units are not operations and are skipped. Later additions: Measurements in the ownership list of deep copies, both ways of replacing the application registry; the core of the cross-registry space is enumerated (operators x operand kinds incl. attribute-obtained units x fresh/copy/copy-of-copy x side); round trips in Fraction/Decimal registries with fractional exponents (exponent type compared).",
         design="5/C18"),
     "C19": dict(
         technique="Hypothesis over constructor forms x unit pairs x values/errors over 60 decades (oracle: the numbers supplied and the slope from an independent definition reader); Hypothesis expression trees over independent and repeated measurements against an own first-order propagation model (partial derivatives per source variable); notation and format round-trips",
@@ -185,7 +185,7 @@ CHECKS = {
              "dimension and standard deviation must agree (1e-7 of the uncancelled contributions), dimension mismatches must raise. All +/- and a(b) notations x sign "
              "x exponent must parse to the measurement built from the same numbers; all format specs must render without altering the object, plain-text ones parse back "
              "within the printed precision. Sampling only.",
-        note="First-order propagation is the contract of the uncertainties package; higher-order effects are outside the model. Format round-trips are judged at the printed precision (1-2 significant digits of the uncertainty). Later additions: negative relative/Quantity errors, prefixed source units, unit-rewriting helpers on measurements compared with the plain quantity.",
+        note="First-order propagation is the contract of the uncertainties package; higher-order effects are outside the model. Format round-trips are judged at the printed precision (1-2 significant digits of the uncertainty). Later additions: negative relative/Quantity errors, prefixed source units, unit-rewriting helpers on measurements compared with the plain quantity; two parses of one text are independent measurements.",
         design="5/C19"),
     "C20": dict(
         technique="complete enumeration of an independently curated table of ~260 standard values x spellings x {Fraction, float} registries (differential oracle: the table)",
@@ -193,7 +193,7 @@ CHECKS = {
              "troy/apothecary, pressure/energy/power units, CGS, information, temperature probe points, CODATA 2022 values) is converted to an SI base-unit "
              "expression and compared with the tabulated value: == in the Fraction registry for exact entries, 1e-45 for pi-dependent ones, 10x CODATA "
              "uncertainty for derived constants, ulp tolerance in float; names, symbols and spellings are checked too. The table is finite and enumerated completely.",
-        note="The table was written offline from memory of the standards and cross-checked by consistency relations; units without an international definition are left out. Later additions: prefix symbols on bar/bit/byte before and after first use, explicit-system queries interleaved with default-system ones (SI base units required).",
+        note="The table was written offline from memory of the standards and cross-checked by consistency relations; units without an international definition are left out. Later additions: prefix symbols on bar/bit/byte before and after first use, explicit-system queries interleaved with default-system ones (SI base units required); prefix symbol + unit symbol of standard units; defined names reading as prefix + unit; derived dimension names and coherence of the SI special-name units (oracle/dimtable.py).",
         design="5/C20"),
 }
 
